@@ -122,17 +122,21 @@ pub fn resolve_data_element(
 
     // Apply definite size via slice
     let maybe_encoding = {
-        maybe_encoding.map(|e|
+        match maybe_encoding
         {
-            if let Some(elem_size) = ast_data.elem_size
+            None => None,
+            Some(e) =>
             {
-                e.slice(elem_size, 0)
+                let size = ast_data.elem_size
+                    .unwrap_or_else(|| e.size_or_min_size());
+
+                Some(e.checked_slice(
+                    report,
+                    expr.span(),
+                    size,
+                    0)?)
             }
-            else
-            {
-                e.slice(e.size_or_min_size(), 0)
-            }
-        })
+        }
     };
 
 
